@@ -1,5 +1,6 @@
 import Np.Proofs.MapCoef
 import Np.Model.Maps
+import Np.Proofs.Gather
 /-! C09 — shape functions and indexing move whole polynomial elements like numpy: property theorems, for *every*
 index map (hence every shape, axis, index or section argument numpy accepts) -/
 namespace Np.Props.C09
@@ -41,4 +42,27 @@ theorem gatherFill_copy {N : Nat} (m : Nat) (idx : List Nat) (v : Vec R N) (i : 
 
 /-- non-vacuity: diag of the single-row matrix [[a, b, c]] is [a] (index map [1]) -/
 example : (gatherFill 1 [1] (Vector.ofFn (n := 3) fun i => (i.val : Int) + 7)).toList = [7] := by decide
+
+/-! ### the executable gather of the model (what the driver runs for every shape function) -/
+section exec
+open Np.Shape
+variable {R : Type} [CommRing R] [BEq R] [LawfulBEq R]
+
+/-- the result of a shape function on well-formed operands is well-formed and has the requested shape -/
+theorem gatherOp_wf (rc rn : Bool) (ops : List (Arr R)) (hw : ∀ a ∈ ops, a.WF) (outShape idx : List Nat) :
+    (gatherOp rc rn ops outShape idx).WF ∧ (gatherOp rc rn ops outShape idx).shape = outShape :=
+  gatherOp_WF rc rn ops hw outShape idx
+
+/-- **C09 for the executable model**: every element of the result of a gather over any list of operands (joins:
+concatenate, stack, …; single operand: reshape, transpose, indexing, …) is either the zero polynomial (index 0 =
+"fill", or out of range) or *the whole element* of the operand owning that global position — operands with different
+indeterminates and different numbers of terms included -/
+theorem gatherOp_moves_elements (rc rn : Bool) (ops : List (Arr R)) (hw : ∀ a ∈ ops, a.WF)
+    (outShape idx : List Nat) (k : Fin (size outShape)) :
+    ((idx.getD k.val 0 = 0 ∨ totalSize ops < idx.getD k.val 0) ∧ (gatherOp rc rn ops outShape idx).elem k = 0) ∨
+    (∃ t a, ops[t]? = some a ∧ ∃ i : Fin (size a.shape),
+      idx.getD k.val 0 - 1 = blockOff ops t + i.val ∧ (gatherOp rc rn ops outShape idx).elem k = a.elem i) :=
+  gatherOp_elem rc rn ops hw outShape idx k
+end exec
+
 end Np.Props.C09
